@@ -528,3 +528,23 @@ pub fn gen_settings(rng: &mut SplitMix) -> Settings {
     };
     Settings { stab, debug: rng.chance(1, 6), meta: rng.chance(1, 3) }
 }
+
+/// A graph with a LARGE table that is accepted whatever its shape and cheap to
+/// sample: every edge massive with weight D/2 + 0.3 (+ jitter); a star (all edges
+/// share vertex 0, so the builder's component search stays shallow) with a few
+/// doubled spokes, i.e. only 3-5 loops.
+pub fn big_accepted_graph(rng: &mut SplitMix, ne: usize) -> GraphSpec {
+    let d = rng.range(1, 4) as usize;
+    let loops = rng.range(3, 5) as usize;
+    let leaves = ne + 1 - loops - 1 + 1; // V = leaves + 1, L = E - V + 1
+    let mut edges: Vec<EdgeSpec> = Vec::new();
+    for i in 0..ne {
+        let leaf = if i < leaves { i as u8 + 1 } else { rng.range(1, leaves as u64) as u8 };
+        let (a, b) = if rng.chance(1, 2) { (0u8, leaf) } else { (leaf, 0u8) };
+        let w = d as f64 / 2.0 + 0.3 + 0.01 * (rng.below(8) as f64);
+        edges.push(EdgeSpec { v: (a, b), massive: true, w: w.to_bits() });
+    }
+    let mut sig = cycle_basis(&edges, rng);
+    mix_basis(&mut sig, rng);
+    GraphSpec { d, edges, externals: vec![0, 1], signature: sig, name: String::new() }
+}
